@@ -44,12 +44,56 @@ class _Lin:
         return tm.app(self.name, (G.I(i),), REAL)
 
 
+class _WithReplay:
+    """session wrapper that attaches a native replay to every obligation added through it"""
+
+    def __init__(self, S, replay):
+        self._S, self._replay = S, replay
+
+    def __getattr__(self, k):
+        return getattr(self._S, k)
+
+    def add(self, *a, **k):
+        k.setdefault('replay', self._replay)
+        return self._S.add(*a, **k)
+
+
+def _rep_struct():
+    f = _structured_native(7)
+    if f:
+        return dict(reproduced=True, **f)
+    return dict(reproduced=False, note='no structured mesh up to 7x7 violates range / use / orientation natively')
+
+
+def _rep_merge(fname, k1, k2, width):
+    """native run of the real combine function on small sets with the same name pattern"""
+    import jax.numpy as jnp
+    from optimism import Mesh
+    mk = lambda keys, base: None if keys is None else {k: (jnp.array([[base + i, i % 3] for i in range(2 + j)]) if width else jnp.arange(base, base + 2 + j)) for j, k in enumerate(keys)}
+    s1, s2 = mk(k1, 0), mk(k2, 0)
+    off = 10
+    out = getattr(Mesh, fname)(s1, s2, off)
+    lost = []
+    for src, shift in ((s1, 0), (s2, off)):
+        for k, v in (src or {}).items():
+            have = onp.asarray(out[k]).reshape(-1, 2 if width else 1).tolist() if k in out else []
+            for row in onp.asarray(v).reshape(-1, 2 if width else 1).tolist():
+                row = [row[0] + shift] + row[1:]
+                if row not in have:
+                    lost.append((k, row))
+    if lost:
+        return dict(reproduced=True, input=dict(function=fname, first={k: onp.asarray(v).tolist() for k, v in (s1 or {}).items()}, second={k: onp.asarray(v).tolist() for k, v in (s2 or {}).items()}, offset=off),
+                    observed='members missing from the merged sets: %s' % lost[:4], output={k: onp.asarray(v).tolist() for k, v in out.items()})
+    return dict(reproduced=False)
+
+
 def _row(lst, k):
     r = lst.at(G.I(k))
     return r if r is not None else [tm.app('undefined_entry', (G.I(k), G.I(j)), INT) for j in range(3)]
 
 
-def _structured(S):
+def _structured(S_):
+    S = _WithReplay(S_, lambda m: _rep_struct())
     q = 'Mesh.create_structured_mesh_data'
     fn = q.split('.')[1]
     L0, L1 = fn + '#0', fn + '#1'
@@ -214,7 +258,8 @@ def _sets(prefix, keys, width, nEnt):
 KEY_PATTERNS = [(None, None), (None, ('a',)), (('a',), None), ((), ('a',)), (('a',), ('c',)), (('a',), ('a',)), (('a', 'b'), ('a', 'c')), (('a', 'b'), ('b', 'a'))]
 
 
-def _merge(S):
+def _merge(S_):
+    S = S_
     from vt import parr as A
     ns, vc, info = P.load_module(FILE)
     ns['np'] = A.NpShim(onp, jaxlike=True)
@@ -257,6 +302,7 @@ def _merge(S):
                     pre.append(v.shape[0] >= 0)
             paths = P.explore(lambda: ns[fname](s1, s2, off), pre)
             nret = 0
+            S = _WithReplay(S_, lambda m, fname=fname, k1=k1, k2=k2, width=width: _rep_merge(fname, k1, k2, width))
             for pi, (ctx, out, status) in enumerate(paths):
                 if status != 'returned':
                     continue
@@ -295,6 +341,643 @@ def _merge(S):
         S.canary(q, [off >= 0])
 
 
+def _combine_mesh(S):
+    from vt import parr as A
+    ns, vc, info = P.load_module(FILE)
+    ns['np'] = A.NpShim(onp, jaxlike=True)
+    ns['len'] = lambda x: x.shape[0] if isinstance(x, A.PArr) else len(x)
+    q = 'Mesh.combine_mesh'
+    MeshT = ns['Mesh']
+
+    class PE:
+        degree = 1
+    sz = {}
+
+    def mk(tag):
+        N, E = tm.var('nNodes_' + tag, INT), tm.var('nElems_' + tag, INT)
+        sz[tag] = (N, E)
+        coords = A.PArr((N, 2), lambda n, c: tm.app('X_' + tag, (A.I(n), A.I(c)), REAL), REAL, label='coords' + tag)
+        conns = A.PArr((E, 3), lambda e, j: tm.app('conn_' + tag, (A.I(e), A.I(j)), INT), INT, label='conns' + tag)
+        disp = A.PArr((N, 2), lambda n, c: tm.app('U_' + tag, (A.I(n), A.I(c)), REAL), REAL, label='disp' + tag)
+        blocks = _sets('blk' + tag, ('a',), 0, E)
+        m = MeshT(coords, conns, None, PE(), PE(), blocks, _sets('ns' + tag, ('a',), 0, N), _sets('ss' + tag, ('a',), 2, E))
+        return m, disp
+    (m1, d1), (m2, d2) = mk('1'), mk('2')
+    (N1, E1), (N2, E2) = sz['1'], sz['2']
+    pre = [N1 >= 1, N2 >= 1, E1 >= 1, E2 >= 1]
+    for m in (m1, m2):
+        for dct in (m.blocks, m.nodeSets, m.sideSets):
+            for v in dct.values():
+                pre.append(v.shape[0] >= 0)
+    paths = P.explore(lambda: ns['combine_mesh']((m1, d1), (m2, d2)), pre)
+    e, j, n, c = tm.var('e*', INT), tm.var('j*', INT), tm.var('n*', INT), tm.var('c*', INT)
+    nret = 0
+    for pi, (ctx, res, status) in enumerate(paths):
+        if status != 'returned':
+            continue
+        nret += 1
+        hy = ctx.hyps()
+        mesh, disp = res
+        inj = [j >= 0, j < 3]
+        inc = [c >= 0, c < 2]
+        S.add(q + '/sizes_add_up@path%d' % pi, hy, tm.and_(tm.eq(mesh.coords.shape[0], N1 + N2), tm.eq(mesh.conns.shape[0], E1 + E2), tm.eq(disp.shape[0], N1 + N2),
+                                                          tm.eq(mesh.simplexNodesOrdinals.shape[0], N1 + N2)), kind='lia')
+        S.add(q + '/elements_of_the_first_mesh_keep_their_nodes@path%d' % pi, hy + inj + [e >= 0, e < E1], tm.eq(mesh.conns.el(e, j), m1.conns.el(e, j)), kind='lia')
+        S.add(q + '/elements_of_the_second_mesh_follow_with_nodes_offset_by_the_first_node_count@path%d' % pi, hy + inj + [e >= 0, e < E2],
+              tm.eq(mesh.conns.el(E1 + e, j), m2.conns.el(e, j) + N1), kind='lia')
+        S.add(q + '/nodes_and_displacements_are_concatenated_in_the_same_order@path%d' % pi, hy + inc + [n >= 0],
+              tm.and_(tm.implies(n < N1, tm.and_(tm.eq(mesh.coords.el(n, c), m1.coords.el(n, c)), tm.eq(disp.el(n, c), d1.el(n, c)))),
+                      tm.implies(n < N2, tm.and_(tm.eq(mesh.coords.el(N1 + n, c), m2.coords.el(n, c)), tm.eq(disp.el(N1 + n, c), d2.el(n, c))))), kind='lia')
+        # connectivity in range, given in-range inputs (instantiated at the rows read)
+        rng = [tm.implies(tm.and_(e >= 0, e < E1), tm.and_(m1.conns.el(e, j) >= 0, m1.conns.el(e, j) < N1)),
+               tm.implies(tm.and_(e - E1 >= 0, e - E1 < E2), tm.and_(m2.conns.el(e - E1, j) >= 0, m2.conns.el(e - E1, j) < N2))]
+        S.add(q + '/connectivity_in_range@path%d' % pi, hy + inj + rng + [e >= 0, e < E1 + E2], tm.and_(mesh.conns.el(e, j) >= 0, mesh.conns.el(e, j) < N1 + N2), kind='lia')
+        # every node used, given that each input mesh uses all of its nodes (witness element and slot)
+        w = lambda tag, nn: (tm.app('we_' + tag, (nn,), INT), tm.app('wj_' + tag, (nn,), INT))
+        used = lambda m_, tag, nn, E_: tm.and_(w(tag, nn)[0] >= 0, w(tag, nn)[0] < E_, w(tag, nn)[1] >= 0, w(tag, nn)[1] < 3, tm.eq(m_.conns.el(*w(tag, nn)), nn))
+        S.add(q + '/every_node_of_the_first_mesh_is_used@path%d' % pi, hy + [n >= 0, n < N1, used(m1, '1', n, E1)], tm.eq(mesh.conns.el(*w('1', n)), n), kind='lia')
+        S.add(q + '/every_node_of_the_second_mesh_is_used@path%d' % pi, hy + [n >= 0, n < N2, used(m2, '2', n, E2)],
+              tm.eq(mesh.conns.el(E1 + w('2', n)[0], w('2', n)[1]), N1 + n), kind='lia')
+        # the set dictionaries are those of combine_* with the node / element offsets of the first mesh
+        for fld, f, offv in (('blocks', 'combine_blocks', E1), ('nodeSets', 'combine_nodesets', N1), ('sideSets', 'combine_sidesets', E1)):
+            got = getattr(mesh, fld)
+            exp_paths = P.explore(lambda: ns[f](getattr(m1, fld), getattr(m2, fld), offv), pre)
+            ok = tm.FALSE
+            for (c2, exp, st2) in exp_paths:
+                if st2 != 'returned' or set(exp) != set(got):
+                    continue
+                same = []
+                for k in exp:
+                    if isinstance(exp[k], onp.ndarray) or isinstance(got[k], onp.ndarray):
+                        same.append(tm.TRUE if (isinstance(exp[k], onp.ndarray) and isinstance(got[k], onp.ndarray) and exp[k].shape == got[k].shape
+                                                and bool(onp.all(exp[k] == got[k]))) else tm.FALSE)
+                        continue
+                    idx = [n, c][:exp[k].ndim]
+                    same.append(tm.and_(tm.eq(exp[k].shape[0], got[k].shape[0]), tm.eq(exp[k].el(*idx), got[k].el(*idx))))
+                ok = tm.or_(ok, tm.and_(*(list(c2.hyps()) + same)))
+            S.add(q + '/%s_are_combined_with_the_offsets_of_the_first_mesh@path%d' % (fld, pi), hy + inc + [n >= 0], ok, kind='lia')
+    if nret == 0:
+        raise P.CheckerError(q + ': no returning path')
+    S.canary(q, pre)
+
+
+# ---------------------------------------------------------------------------
+# C. order elevation on the complete family of local configurations, symbolic coordinates
+# ---------------------------------------------------------------------------
+
+def _linform(t, cache):
+    """term -> {var name: coefficient, '': constant} ; raises ValueError when the term is not affine in its variables"""
+    for n in tm.postorder([t]):
+        if id(n) in cache:
+            continue
+        a = [cache[id(x)] for x in n.args]
+        if n.op == 'const':
+            v = {'': float(n.data)}
+        elif n.op == 'var':
+            v = {n.data: 1.0}
+        elif n.op == 'add':
+            v = dict(a[0])
+            for k, c in a[1].items():
+                v[k] = v.get(k, 0.0) + c
+        elif n.op == 'neg':
+            v = {k: -c for k, c in a[0].items()}
+        elif n.op == 'mul':
+            if set(a[0]) <= {''}:
+                v = {k: a[0].get('', 0.0) * c for k, c in a[1].items()}
+            elif set(a[1]) <= {''}:
+                v = {k: a[1].get('', 0.0) * c for k, c in a[0].items()}
+            else:
+                raise ValueError('product of two non-constant terms')
+        elif n.op == 'div':
+            if not set(a[1]) <= {''}:
+                raise ValueError('division by a non-constant term')
+            v = {k: c / a[1].get('', 0.0) for k, c in a[0].items()}
+        elif n.op == 'to_real':
+            v = a[0]
+        else:
+            raise ValueError('operation %s' % n.op)
+        cache[id(n)] = v
+    return cache[id(t)]
+
+
+def _patches():
+    """(name, conns): one triangle; two triangles sharing an edge for every pair of local sides and both element orders"""
+    out = [('single-triangle', [[0, 1, 2]])]
+    rot = lambda tri, k: [tri[(i - k) % 3] for i in range(3)]      # rot k puts tri[0],tri[1] on local side k
+    for sL in range(3):
+        for sR in range(3):
+            A_ = rot([0, 1, 2], sL)        # edge (0,1) is local side sL of A
+            B_ = rot([1, 0, 3], sR)        # edge (1,0) is local side sR of B
+            out.append(('shared-edge[side %d | side %d]' % (sL, sR), [A_, B_]))
+            out.append(('shared-edge[side %d | side %d, elements swapped]' % (sL, sR), [B_, A_]))
+    return out
+
+
+def _elevation(S):
+    import jax.numpy as jnp
+    from optimism import Mesh, Interpolants
+    from vt import jaxfront as J
+    q = 'Mesh.create_higher_order_mesh_from_simplex_mesh'
+    S.function(q, Mesh.create_higher_order_mesh_from_simplex_mesh, 'J')
+    S.function('Mesh.create_edges', Mesh.create_edges, 'ground')
+    orders = (2, 3, 4, 5) if S.tier != 'quick' else (2, 3, 4, 5)
+    for order in orders:
+        for bubble in (False, True):
+            tag = 'order=%d,bubble=%s' % (order, bubble)
+            bad = OD((k, []) for k in ('affine', 'vertices', 'shared', 'count', 'dups', 'sets'))
+            for pname, conns in _patches():
+                conns = onp.asarray(conns)
+                N = int(conns.max()) + 1
+                # generic concrete geometry for the native run that produces the connectivity (topology does not depend on it)
+                rng = onp.random.default_rng(131)
+                X0 = onp.array([[0.0, 0.0], [1.0, 0.1], [0.3, 0.9], [0.8, -0.7]])[:N] + 0.01 * rng.standard_normal((N, 2))
+                area = lambda tri: 0.5 * ((X0[tri[1], 0] - X0[tri[0], 0]) * (X0[tri[2], 1] - X0[tri[0], 1]) - (X0[tri[2], 0] - X0[tri[0], 0]) * (X0[tri[1], 1] - X0[tri[0], 1]))
+                assert all(area(t) > 0 for t in conns), pname
+                blocks = {'b': jnp.arange(conns.shape[0])}
+                sides = {'s': jnp.array([[0, 0], [conns.shape[0] - 1, 2]])}
+                base = Mesh.construct_mesh_from_basic_data(jnp.asarray(X0), jnp.asarray(conns), blocks, None, sides)
+                hm = Mesh.create_higher_order_mesh_from_simplex_mesh(base, order, useBubbleElement=bubble)
+                hc = onp.asarray(hm.conns)
+                basis = hm.parentElement
+                Xs = J.sym_array('X', (N, 2))
+                # the reference elements do not depend on the coordinates: their (concrete) values are computed outside the trace
+                saved = {f: getattr(Interpolants, f) for f in ('make_parent_element_1d', 'make_parent_element_2d', 'make_parent_element_2d_with_bubble')}
+                memo = {f: saved[f](order) for f in saved}
+                real_edges = Mesh.create_edges
+                edges_memo = real_edges(onp.asarray(conns))
+                try:
+                    Mesh.create_edges = lambda c: edges_memo      # topology only: evaluated on the concrete connectivity outside the trace
+                    for f in saved:
+                        setattr(Interpolants, f, lambda d, f=f: memo[f] if d == order else saved[f](d))
+                    out = J.to_obj(J.symbolic_call(lambda X: Mesh.create_higher_order_mesh_from_simplex_mesh(Mesh.mesh_with_coords(base, X), order, useBubbleElement=bubble).coords, Xs))
+                finally:
+                    Mesh.create_edges = real_edges
+                    for f in saved:
+                        setattr(Interpolants, f, saved[f])
+                cache = {}
+                try:
+                    forms = [[_linform(out[n, c], cache) for c in range(2)] for n in range(out.shape[0])]
+                except ValueError as ex:
+                    bad['affine'].append('%s: node positions are not affine in the vertex coordinates (%s)' % (pname, ex))
+                    continue
+                ref = onp.asarray(basis.coordinates)
+                rv = ref[onp.asarray(basis.vertexNodes)]
+                Tm = onp.vstack([rv.T, onp.ones(3)])
+                lam = onp.linalg.solve(Tm, onp.vstack([ref.T, onp.ones(ref.shape[0])]))      # barycentric coordinates (3, nNodesPerElement)
+                for e in range(hc.shape[0]):
+                    for j in range(hc.shape[1]):
+                        for c in range(2):
+                            want = {}
+                            for v in range(3):
+                                if abs(lam[v, j]) > 0:
+                                    nm = 'X_%d_%d' % (conns[e, v], c)
+                                    want[nm] = want.get(nm, 0.0) + lam[v, j]
+                            got = forms[hc[e, j]][c]
+                            keys = set(want) | set(got)
+                            err = max(abs(want.get(k, 0.0) - got.get(k, 0.0)) for k in keys)
+                            if err > 1e-12:
+                                bad['affine'].append('%s: element %d local node %d (component %d): coefficient error %.3g' % (pname, e, j, c, err))
+                if not onp.array_equal(hc[:, onp.asarray(basis.vertexNodes)], conns):
+                    bad['vertices'].append('%s: vertex slots of the elevated connectivity differ from the simplex connectivity' % pname)
+                if conns.shape[0] == 2:
+                    # the shared edge (vertices 0,1): node ids along it must coincide, in opposite order
+                    fn = onp.asarray(basis.faceNodes)
+                    ids = []
+                    for e in range(2):
+                        sd = [s_ for s_ in range(3) if {conns[e, s_], conns[e, (s_ + 1) % 3]} == {0, 1}][0]
+                        ids.append(hc[e, fn[sd]])
+                    if not onp.array_equal(ids[0], ids[1][::-1]):
+                        bad['shared'].append('%s: edge nodes %s vs %s' % (pname, ids[0].tolist(), ids[1].tolist()))
+                nE = {1: 3, 2: 5}[conns.shape[0]]
+                nI = int(onp.asarray(basis.interiorNodes).size)
+                nExp = N + nE * (order - 1) + conns.shape[0] * nI
+                if out.shape[0] != nExp or sorted(set(hc.ravel().tolist())) != list(range(nExp)):
+                    bad['count'].append('%s: %d nodes, expected %d; used ids %d' % (pname, out.shape[0], nExp, len(set(hc.ravel().tolist()))))
+                sig = {}
+                for n in range(out.shape[0]):
+                    key = tuple(sorted((k, round(v, 10)) for k, v in forms[n][0].items() if abs(v) > 1e-13))
+                    if key in sig:
+                        bad['dups'].append('%s: nodes %d and %d coincide for every geometry' % (pname, sig[key], n))
+                    sig[key] = n
+                if not (onp.array_equal(onp.asarray(hm.sideSets['s']), onp.asarray(sides['s'])) and onp.array_equal(onp.asarray(hm.blocks['b']), onp.asarray(blocks['b']))
+                        and onp.array_equal(onp.asarray(hm.simplexNodesOrdinals), onp.arange(N))):
+                    bad['sets'].append('%s: blocks / side sets / vertex list not carried over' % pname)
+            names = dict(affine='every_node_of_every_element_sits_at_the_affine_image_of_its_reference_node', vertices='vertex_slots_keep_the_simplex_connectivity',
+                         shared='neighbours_share_their_edge_nodes_in_opposite_order', count='node_count_and_no_unused_node', dups='no_two_nodes_coincide',
+                         sets='blocks_side_sets_and_vertex_list_carried_over')
+            for k, msgs in bad.items():
+                S.ground('%s/%s[%s]' % (q, names[k], tag), not msgs, detail='; '.join(msgs[:3]) or '19 local configurations')
+
+
+# ---------------------------------------------------------------------------
+# D. exodus 6-node ordering against the reference element (closed check)
+# ---------------------------------------------------------------------------
+
+def _tri6(S):
+    from optimism import ReadExodusMesh as R, Interpolants
+    S.function('ReadExodusMesh.exodusToNativeTri6NodeOrder', None, 'ground', file=os.path.join(P.REPO, 'optimism/ReadExodusMesh.py'))
+    perm = [int(v) for v in onp.asarray(R.exodusToNativeTri6NodeOrder)]
+    pe = Interpolants.make_parent_element_2d(2)
+    ref = onp.asarray(pe.coordinates)
+    vn = [int(v) for v in onp.asarray(pe.vertexNodes)]
+    # exodus TRI6: nodes 0..2 vertices (counter-clockwise), node 3+i the midpoint of vertices i and i+1 (mod 3)
+    exo = [ref[vn[i]] for i in range(3)] + [0.5 * (ref[vn[i]] + ref[vn[(i + 1) % 3]]) for i in range(3)]
+    ok = sorted(perm) == list(range(6)) and all(onp.allclose(ref[a], exo[perm[a]], atol=1e-14) for a in range(6))
+    S.ground('ReadExodusMesh.exodusToNativeTri6NodeOrder/native_node_a_is_exodus_node_perm_a_at_the_same_reference_position', bool(ok),
+             detail='perm=%s' % perm)
+    for deg in (1, 2):
+        pe = Interpolants.make_parent_element_2d(deg)
+        fn, vn = onp.asarray(pe.faceNodes), onp.asarray(pe.vertexNodes)
+        ok = all(fn[s_, 0] == vn[s_] and fn[s_, -1] == vn[(s_ + 1) % 3] for s_ in range(3))
+        S.ground('Interpolants.make_parent_element_2d/local_side_s_joins_vertices_s_and_s_plus_one_like_exodus_sides[degree=%d]' % deg, bool(ok))
+
+
+def _exodus_blocks(S):
+    """ReadExodusMesh._read_blocks / _read_block_conns re-executed on a dataset proxy: 1..4 element blocks of SYMBOLIC sizes,
+    named and unnamed: block ranges partition the elements in file order, connectivity is stacked in that order and 0-based"""
+    from vt import parr as A
+    ns, vc, info = P.load_module('optimism/ReadExodusMesh.py')
+    ns['np'] = A.NpShim(onp, jaxlike=True)
+    ns['onp'] = A.NpShim(onp)
+    q = 'ReadExodusMesh._read_blocks'
+    for f in ('_read_blocks', '_read_block_conns'):
+        S.functions['ReadExodusMesh.' + f] = dict(file=info['file'], sha256=P.fn_sha(info['file'], f), frontend='P')
+
+    class Len:
+        def __init__(self, n):
+            self.n = n
+    ns['len'] = lambda x: x.n if isinstance(x, Len) else (x.shape[0] if isinstance(x, A.PArr) else len(x))
+
+    class Record:
+        def __init__(self, arr):
+            self.arr = arr
+
+        def set_auto_mask(self, flag):
+            pass
+
+        def __getitem__(self, idx):
+            return self.arr
+    t, j = tm.var('t*', INT), tm.var('j*', INT)
+    for nb in (1, 2, 3, 4):
+        for names in ([''] * nb, ['solid'] + [''] * (nb - 1), ['blk%d' % i for i in range(nb)]):
+            tag = '[%d blocks, names=%s]' % (nb, ','.join(n_ or '-' for n_ in names))
+            sizes = [tm.var('n%d' % (i + 1), INT) for i in range(nb)]
+
+            class DS:
+                pass
+            ds = DS()
+            ds.dimensions = {'num_el_blk': Len(nb)}
+            ds.variables = {}
+            raw = []
+            for i in range(nb):
+                ds.dimensions['num_el_in_blk%d' % (i + 1)] = Len(sizes[i])
+                ds.dimensions['num_nod_per_el%d' % (i + 1)] = Len(3)
+                arr = A.PArr((sizes[i], 3), lambda e, k, i=i: tm.app('connect%d' % (i + 1), (A.I(e), A.I(k)), INT), INT, label='connect%d' % (i + 1))
+                raw.append(arr)
+                ds.variables['connect%d' % (i + 1)] = Record(arr)
+            ns['_read_names_list'] = lambda d, rec, names=names: list(names)      # callee contract: the stored names (unnamed = empty string)
+            pre = [n_ >= 1 for n_ in sizes]
+            paths = P.explore(lambda: ns['_read_blocks'](ds), pre)
+            nret = 0
+            for pi, (ctx, res, status) in enumerate(paths):
+                if status != 'returned':
+                    continue
+                nret += 1
+                hy = ctx.hyps()
+                conns, blocks = res
+                S.add(q + '/one_block_entry_per_block_in_the_file%s@path%d' % (tag, pi), hy, tm.TRUE if len(blocks) == nb else tm.FALSE, kind='lia')
+                tot = tm.const(0, INT)
+                for i, (k, v) in enumerate(list(blocks.items())[:nb]):
+                    first = tot
+                    tot = tot + sizes[i]
+                    if names[i] and k != names[i]:
+                        S.add(q + '/named_block_keeps_its_name%s[%d]@path%d' % (tag, i, pi), hy, tm.FALSE, kind='lia')
+                    if not isinstance(v, A.PArr):
+                        S.add(q + '/block_lists_its_elements%s[%d]@path%d' % (tag, i, pi), hy, tm.FALSE, kind='lia')
+                        continue
+                    S.add(q + '/block_i_lists_the_elements_after_those_of_the_blocks_before_it%s[%d]@path%d' % (tag, i, pi), hy + [t >= 0, t < sizes[i]],
+                          tm.and_(tm.eq(v.shape[0], sizes[i]), tm.eq(v.el(t), first + t)), kind='lia')
+                    S.add(q + '/connectivity_rows_of_block_i_follow_in_file_order_and_are_zero_based%s[%d]@path%d' % (tag, i, pi), hy + [t >= 0, t < sizes[i], j >= 0, j < 3],
+                          tm.eq(conns.el(first + t, j), raw[i].el(t, j) - 1), kind='lia')
+                S.add(q + '/no_element_is_lost%s@path%d' % (tag, pi), hy, tm.eq(conns.shape[0], tot), kind='lia')
+            if nret == 0:
+                raise P.CheckerError(q + tag + ': no returning path')
+    S.canary(q, [tm.var('n1', INT) >= 1])
+
+
+# ---------------------------------------------------------------------------
+# E. bounded stand-ins
+# ---------------------------------------------------------------------------
+
+def _area2(X, tri):
+    return (X[tri[1], 0] - X[tri[0], 0]) * (X[tri[2], 1] - X[tri[0], 1]) - (X[tri[2], 0] - X[tri[0], 0]) * (X[tri[1], 1] - X[tri[0], 1])
+
+
+def _check_simplex_mesh(coords, conns):
+    X, c = onp.asarray(coords), onp.asarray(conns)
+    pr = []
+    if c.min() < 0 or c.max() >= X.shape[0]:
+        pr.append('connectivity out of range')
+    elif sorted(set(c[:, :].ravel().tolist())) != list(range(X.shape[0])):
+        pr.append('unused nodes')
+    elif not all(_area2(X, t) > 0 for t in c[:, :3]):
+        pr.append('element with non-positive area')
+    return pr
+
+
+def _check_edges(conns, edgeConns, edges):
+    c, ec, ed = onp.asarray(conns), onp.asarray(edgeConns), onp.asarray(edges)
+    pr = []
+    und = {}
+    for e in range(c.shape[0]):
+        for s_ in range(3):
+            und.setdefault(frozenset((int(c[e, s_]), int(c[e, (s_ + 1) % 3]))), []).append((e, s_))
+    seen = {}
+    for i in range(ec.shape[0]):
+        key = frozenset((int(ec[i, 0]), int(ec[i, 1])))
+        if key in seen:
+            pr.append('edge %s listed twice' % sorted(key))
+        seen[key] = i
+        lT, lP, rT, rP = [int(v) for v in ed[i]]
+        if not (0 <= lT < c.shape[0] and 0 <= lP < 3 and (c[lT, lP], c[lT, (lP + 1) % 3]) == (ec[i, 0], ec[i, 1])):
+            pr.append('edge %d: left element/side does not carry the edge in its direction' % i)
+        owners = und.get(key, [])
+        if len(owners) == 1:
+            if (rT, rP) != (-1, -1):
+                pr.append('boundary edge %d has a right element' % i)
+        elif len(owners) == 2:
+            if not (0 <= rT < c.shape[0] and 0 <= rP < 3 and (c[rT, rP], c[rT, (rP + 1) % 3]) == (ec[i, 1], ec[i, 0]) and rT != lT):
+                pr.append('interior edge %d: right element/side does not carry the reversed edge' % i)
+    if set(seen) != set(und):
+        pr.append('%d edges listed, %d exist' % (len(seen), len(und)))
+    return pr
+
+
+def _check_elevated(base, hm, order):
+    X, c = onp.asarray(base.coords), onp.asarray(base.conns)
+    Y, hc = onp.asarray(hm.coords), onp.asarray(hm.conns)
+    pe = hm.parentElement
+    ref = onp.asarray(pe.coordinates)
+    rv = ref[onp.asarray(pe.vertexNodes)]
+    lam = onp.linalg.solve(onp.vstack([rv.T, onp.ones(3)]), onp.vstack([ref.T, onp.ones(ref.shape[0])]))
+    pr = []
+    if hc.min() < 0 or hc.max() >= Y.shape[0] or sorted(set(hc.ravel().tolist())) != list(range(Y.shape[0])):
+        pr.append('connectivity out of range or unused nodes')
+        return pr
+    err = 0.0
+    for e in range(c.shape[0]):
+        err = max(err, float(onp.max(onp.abs(Y[hc[e]] - lam.T @ X[c[e]]))))
+    if err > 1e-11:
+        pr.append('nodes off the affine image of the reference nodes by %.3g' % err)
+    # conformity: both neighbours see the same nodes along a shared edge, in opposite order
+    fn = onp.asarray(pe.faceNodes)
+    owner = {}
+    for e in range(c.shape[0]):
+        for s_ in range(3):
+            key = (int(c[e, s_]), int(c[e, (s_ + 1) % 3]))
+            owner[key] = hc[e, fn[s_]]
+    for (u, v), ids in owner.items():
+        if (v, u) in owner and not onp.array_equal(ids, owner[(v, u)][::-1]):
+            pr.append('edge (%d,%d): neighbours disagree on the edge nodes' % (u, v))
+            break
+    # duplicates
+    key = onp.round(Y / 1e-9).astype(onp.int64)
+    if len({(int(a), int(b)) for a, b in key}) != Y.shape[0]:
+        pr.append('duplicate nodes')
+    nEdges = len({frozenset(k) for k in owner})
+    nExp = X.shape[0] + nEdges * (order - 1) + c.shape[0] * int(onp.asarray(pe.interiorNodes).size)
+    if Y.shape[0] != nExp:
+        pr.append('%d nodes, expected %d' % (Y.shape[0], nExp))
+    return pr
+
+
+def _random_meshes(rng, n):
+    """structured (distorted), random Delaunay, meshes with a hole; each with random cyclic rotation of the vertex order"""
+    from scipy.spatial import Delaunay
+    from optimism import Mesh
+    out = []
+    for k in range(n):
+        kind = ('structured', 'delaunay', 'hole')[k % 3]
+        if kind == 'structured':
+            Nx, Ny = int(rng.integers(2, 6)), int(rng.integers(2, 6))
+            m = Mesh.construct_structured_mesh(Nx, Ny, [0.0, 1.0 + rng.random()], [0.0, 1.0 + rng.random()])
+            X, c = onp.asarray(m.coords), onp.asarray(m.conns)
+        else:
+            pts = rng.random((int(rng.integers(6, 25)), 2))
+            tri = Delaunay(pts)
+            c = tri.simplices.copy()
+            for t in c:
+                if _area2(pts, t) < 0:
+                    t[1], t[2] = t[2], t[1]
+            keep = onp.array([abs(_area2(pts, t)) > 1e-6 for t in c])
+            c = c[keep]
+            if kind == 'hole' and c.shape[0] > 6:
+                cen = pts[c].mean(axis=1)
+                drop = onp.argsort(onp.linalg.norm(cen - 0.5, axis=1))[:2]
+                c = onp.delete(c, drop, axis=0)
+            used = sorted(set(c.ravel().tolist()))
+            remap = {o: i for i, o in enumerate(used)}
+            X = pts[used]
+            c = onp.vectorize(remap.get)(c)
+        c = onp.array([onp.roll(t, int(rng.integers(0, 3))) for t in c])
+        out.append((kind, X, c))
+    return out
+
+
+def _write_exodus(path, X, conn_blocks, elem_type, block_names, node_sets, side_sets):
+    import netCDF4
+    with netCDF4.Dataset(path, 'w', format='NETCDF3_64BIT_OFFSET') as d:
+        d.createDimension('len_name', 33)
+        d.createDimension('num_dim', 2)
+        d.createDimension('num_nodes', X.shape[0])
+        d.createDimension('num_el_blk', len(conn_blocks))
+        d.createVariable('coordx', 'f8', ('num_nodes',))[:] = X[:, 0]
+        d.createVariable('coordy', 'f8', ('num_nodes',))[:] = X[:, 1]
+
+        def names(var, dim, lst):
+            v = d.createVariable(var, 'S1', (dim, 'len_name'))
+            arr = onp.zeros((len(lst), 33), dtype='S1')
+            for i, nm in enumerate(lst):
+                for j, ch in enumerate(nm):
+                    arr[i, j] = ch.encode()
+            v[:] = arr
+        names('eb_names', 'num_el_blk', block_names)
+        for i, cb in enumerate(conn_blocks):
+            d.createDimension('num_el_in_blk%d' % (i + 1), cb.shape[0])
+            d.createDimension('num_nod_per_el%d' % (i + 1), cb.shape[1])
+            v = d.createVariable('connect%d' % (i + 1), 'i4', ('num_el_in_blk%d' % (i + 1), 'num_nod_per_el%d' % (i + 1)))
+            v.elem_type = elem_type
+            v[:] = cb + 1
+        if node_sets:
+            d.createDimension('num_node_sets', len(node_sets))
+            names('ns_names', 'num_node_sets', [k for k, _ in node_sets])
+            for i, (_, v_) in enumerate(node_sets):
+                d.createDimension('num_nod_ns%d' % (i + 1), len(v_))
+                d.createVariable('node_ns%d' % (i + 1), 'i4', ('num_nod_ns%d' % (i + 1),))[:] = onp.asarray(v_) + 1
+        if side_sets:
+            d.createDimension('num_side_sets', len(side_sets))
+            names('ss_names', 'num_side_sets', [k for k, _ in side_sets])
+            for i, (_, v_) in enumerate(side_sets):
+                v_ = onp.asarray(v_).reshape(-1, 2)
+                d.createDimension('num_side_ss%d' % (i + 1), v_.shape[0])
+                d.createVariable('elem_ss%d' % (i + 1), 'i4', ('num_side_ss%d' % (i + 1),))[:] = v_[:, 0] + 1
+                d.createVariable('side_ss%d' % (i + 1), 'i4', ('num_side_ss%d' % (i + 1),))[:] = v_[:, 1] + 1
+
+
+def _structured_native(maxn=5):
+    from optimism import Mesh
+    for Nx in range(2, maxn + 1):
+        for Ny in range(2, maxn + 1):
+            try:
+                X, c = Mesh.create_structured_mesh_data(Nx, Ny, [0.3, 1.7], [-1.0, 0.4])
+                pr = _check_simplex_mesh(X, c)
+                if not pr and onp.asarray(c).shape[0] != 2 * (Nx - 1) * (Ny - 1):
+                    pr = ['%d elements' % onp.asarray(c).shape[0]]
+            except Exception as ex:
+                pr = ['%s: %s' % (type(ex).__name__, str(ex)[:100])]
+            if pr:
+                return dict(input=dict(Nx=Nx, Ny=Ny, xExtent=[0.3, 1.7], yExtent=[-1.0, 0.4]), observed=pr)
+    return None
+
+
+def bounded(S):
+    import jax.numpy as jnp
+    from optimism import Mesh, ReadMesh, ReadExodusMesh, Surface
+    rng = onp.random.default_rng(S.seed + 1313)
+    fails, cases = [], 0
+    f = _structured_native(5 if S.tier == 'quick' else 9)
+    cases += 16
+    if f:
+        fails.append(f)
+    nm = 9 if S.tier == 'quick' else 60
+    meshes = _random_meshes(rng, nm)
+    combos = [(o, b) for o in (2, 3, 4, 5) for b in (False, True)]
+    for mi, (kind, X, c) in enumerate(meshes):
+        cases += 1
+        pr = _check_simplex_mesh(X, c)
+        if pr:
+            raise P.CheckerError('bounded C13: generated input mesh invalid: %s' % pr)
+        try:
+            ec, ed = Mesh.create_edges(jnp.asarray(c))
+            pr = ['create_edges: ' + m_ for m_ in _check_edges(c, ec, ed)]
+            base = Mesh.construct_mesh_from_basic_data(jnp.asarray(X), jnp.asarray(c), {'b': jnp.arange(c.shape[0])})
+            sel = combos if S.tier != 'quick' else [combos[(mi + k) % 8] for k in range(3)]
+            for (o, b) in sel:
+                hm = Mesh.create_higher_order_mesh_from_simplex_mesh(base, o, useBubbleElement=b)
+                pr += ['elevation order %d bubble %s: %s' % (o, b, m_) for m_ in _check_elevated(base, hm, o)]
+        except Exception as ex:
+            pr = ['%s: %s' % (type(ex).__name__, str(ex)[:200])]
+        if pr:
+            fails.append(dict(input=dict(kind=kind, mesh_index=mi, seed=S.seed + 1313, nodes=int(X.shape[0]), elements=int(c.shape[0])), observed=pr[:3]))
+    # readers on generated files
+    tmp = tempfile.mkdtemp(prefix='c13_')
+    try:
+        for mi, (kind, X, c) in enumerate(meshes[:6 if S.tier == 'quick' else 30]):
+            cases += 1
+            pr = []
+            nE = c.shape[0]
+            bnd = [[e, s_] for e in range(nE) for s_ in range(3) if not any((c[e2, (s2 + 1) % 3], c[e2, s2]) == (c[e, s_], c[e, (s_ + 1) % 3]) for e2 in range(nE) for s2 in range(3))]
+            nsets = [('left', sorted(set(int(v) for v in c[:max(1, nE // 2)].ravel()))), ('', [int(c[0, 0])])]
+            ssets = [('outer', bnd), ('', bnd[:1])]
+            try:
+                # json
+                jp = os.path.join(tmp, 'm%d.json' % mi)
+                with open(jp, 'w') as fh:
+                    json.dump(dict(coordinates=X.tolist(), connectivity=c.tolist(), nodeSets={k or 'unnamed': v for k, v in nsets},
+                                   sideSets={k or 'unnamed': [[r[0] for r in v], [r[1] for r in v]] for k, v in ssets}), fh)
+                m = ReadMesh.read_json_mesh(jp)
+                if not (onp.allclose(onp.asarray(m.coords), X) and onp.array_equal(onp.asarray(m.conns), c)):
+                    pr.append('json: coordinates / connectivity changed')
+                pr += ['json: ' + x for x in _check_simplex_mesh(m.coords, m.conns)]
+                for k, v in nsets:
+                    if sorted(onp.asarray(m.nodeSets[k or 'unnamed']).tolist()) != sorted(v):
+                        pr.append('json: node set %r changed' % k)
+                for k, v in ssets:
+                    if onp.asarray(m.sideSets[k or 'unnamed']).tolist() != v:
+                        pr.append('json: side set %r changed' % k)
+                # exodus tri3 with two blocks, tri6 with one or two blocks
+                for etype in ('TRI3', 'TRI6'):
+                    nb = 3 if nE >= 4 else 1
+                    cut, cut2 = (nE // 4, nE // 4 + max(1, nE // 3)) if nb == 3 else (nE, nE)
+                    if etype == 'TRI3':
+                        Xf, cf = X, c
+                    else:
+                        # exodus layout: vertices, then mid-side nodes (1-2, 2-3, 3-1)
+                        mid, rows, extra = {}, [], []
+                        for t in c:
+                            row = list(t)
+                            for i in range(3):
+                                key = frozenset((int(t[i]), int(t[(i + 1) % 3])))
+                                if key not in mid:
+                                    mid[key] = X.shape[0] + len(extra)
+                                    extra.append(0.5 * (X[t[i]] + X[t[(i + 1) % 3]]))
+                                row.append(mid[key])
+                            rows.append(row)
+                        Xf, cf = onp.vstack([X, onp.array(extra)]), onp.array(rows)
+                    blocks = [cf[:cut]] + ([cf[cut:cut2], cf[cut2:]] if nb == 3 else [])
+                    bnames = ['solid', '', 'rest'][:nb]
+                    ep = os.path.join(tmp, 'm%d_%s.exo' % (mi, etype))
+                    _write_exodus(ep, Xf, blocks, etype, bnames, nsets, ssets)
+                    m = ReadExodusMesh.read_exodus_mesh(ep)
+                    mc = onp.asarray(m.conns)
+                    pe = m.parentElement
+                    if not onp.allclose(onp.asarray(m.coords), Xf):
+                        pr.append('%s: coordinates changed' % etype)
+                    if mc.shape[0] != nE:
+                        pr.append('%s: %d elements read, %d written' % (etype, mc.shape[0], nE))
+                    elif mc.min() < 0 or mc.max() >= Xf.shape[0] or sorted(set(mc.ravel().tolist())) != list(range(Xf.shape[0])):
+                        pr.append('%s: connectivity out of range / unused nodes' % etype)
+                    else:
+                        vn = onp.asarray(pe.vertexNodes)
+                        if not onp.array_equal(mc[:, vn], c):
+                            pr.append('%s: vertex slots do not hold the written vertices in order' % etype)
+                        ref = onp.asarray(pe.coordinates)
+                        lam = onp.linalg.solve(onp.vstack([ref[vn].T, onp.ones(3)]), onp.vstack([ref.T, onp.ones(ref.shape[0])]))
+                        err = max(float(onp.max(onp.abs(Xf[mc[e]] - lam.T @ Xf[mc[e][vn]]))) for e in range(nE))
+                        if err > 1e-12:
+                            pr.append('%s: nodes are not at the affine image of the reference nodes (%.3g)' % (etype, err))
+                        if not all(_area2(Xf, mc[e][vn]) > 0 for e in range(nE)):
+                            pr.append('%s: element with non-positive area' % etype)
+                        if sorted(onp.asarray(m.simplexNodesOrdinals).tolist()) != sorted(set(c.ravel().tolist())):
+                            pr.append('%s: vertex node list wrong' % etype)
+                    got_blocks = {k: onp.asarray(v).tolist() for k, v in m.blocks.items()}
+                    if sorted(sum(got_blocks.values(), [])) != list(range(nE)) or len(got_blocks) != nb or 'solid' not in got_blocks:
+                        pr.append('%s: blocks %s' % (etype, {k: len(v) for k, v in got_blocks.items()}))
+                    if len(m.nodeSets) != 2 or len(m.sideSets) != 2:
+                        pr.append('%s: %d node sets, %d side sets read; 2 and 2 written' % (etype, len(m.nodeSets), len(m.sideSets)))
+                    else:
+                        for (k, v), (k2, v2) in zip(nsets, m.nodeSets.items()):
+                            if (k and k != k2) or sorted(onp.asarray(v2).tolist()) != sorted(v):
+                                pr.append('%s: node set %r changed' % (etype, k))
+                        for (k, v), (k2, v2) in zip(ssets, m.sideSets.items()):
+                            if (k and k != k2) or onp.asarray(v2).tolist() != v:
+                                pr.append('%s: side set %r changed' % (etype, k))
+                            else:
+                                # every side-set member is a boundary side of an existing element, seen through the native face table
+                                fnod = onp.asarray(pe.faceNodes)
+                                for (e, s_) in v:
+                                    a_, b_ = mc[e, fnod[s_, 0]], mc[e, fnod[s_, -1]]
+                                    if (a_, b_) != (c[e, s_], c[e, (s_ + 1) % 3]):
+                                        pr.append('%s: side (%d,%d) does not join the written vertices' % (etype, e, s_))
+                                        break
+            except Exception as ex:
+                import traceback
+                pr.append('%s: %s [%s]' % (type(ex).__name__, str(ex)[:160], traceback.format_exc().strip().splitlines()[-3].strip()[:120]))
+            if pr:
+                fails.append(dict(input=dict(kind=kind, mesh_index=mi, seed=S.seed + 1313, what='readers on generated json / exodus files'), observed=pr[:3]))
+    finally:
+        import shutil
+        shutil.rmtree(tmp, ignore_errors=True)
+    S.bounded_check('Mesh/bounded-edges-elevation-and-readers-on-generated-meshes',
+                    'structured generator for all sizes up to the bound; create_edges (each edge once, left/right adjacency, boundary edges counter-clockwise), order elevation 2..5 with/without bubble (affine image, conformity, no duplicate/unused node) on distorted structured, random Delaunay and holed meshes with randomly rotated vertex order; JSON and Exodus (TRI3/TRI6, two blocks, named and unnamed sets) round trips through generated files',
+                    '%d meshes of up to 25 vertices' % nm, cases, fails)
+
+
 def run(S):
     _structured(S)
     _merge(S)
+    _combine_mesh(S)
+    _elevation(S)
+    _tri6(S)
+    _exodus_blocks(S)
+    bounded(S)
